@@ -939,7 +939,11 @@ impl Xot {
         // a replacing text node may have been merged into one of two text
         // neighbours, which are then adjacent to each other
         if let (Some(previous_node), Some(next_node)) = (previous_node, next_node) {
-            if self.next_sibling(previous_node) == Some(next_node) {
+            // (moving the replacing node away from its old position may
+            // have merged the previous node into the text before it)
+            if !self.is_removed(previous_node)
+                && self.next_sibling(previous_node) == Some(next_node)
+            {
                 self.remove_consolidate_text_nodes(Some(previous_node), Some(next_node));
             }
         }
